@@ -581,9 +581,12 @@ impl VerifFs for SimFs {
         // injected "short read then error"
         if let Some(idx) = self.faults.iter().position(|f| f.at == at && f.consumed > 0) {
             let fault = self.faults[idx].clone();
-            if n > 0 {
-                n = n.min(fault.consumed.max(1));
+            if n == 0 {
+                // nothing to deliver first (read at EOF): fail right away
+                self.fire(Class::Read, &name, &fault);
+                return Err(os_err(fault.errno));
             }
+            n = n.min(fault.consumed.max(1));
             self.fired.ioerr += 1;
             if fault.persistent {
                 self.sticky.push((Class::Read, name.clone(), fault.errno));
